@@ -989,6 +989,12 @@ class Engine:
         return slice(lo, hi, st)
 
     def slice(self, base, lo, hi, st, node):
+        if isinstance(base, Rec) and base.cls == "restraint_list":
+            if lo == 2 and hi is None and st is None:
+                f = base.fields
+                self.may_raise("TypeError", S(f["kind"]) != z3.StringVal("rectangle"), node, "restraint[2:] is used as three half lengths: rectangles only")
+                return CList([f["a"], f["b"], f["c"], f["kind"]])
+            raise Unsupported("restraint slice")
         if isinstance(base, (tuple, CList, str)) and all(x is None or isinstance(x, int) for x in (lo, hi, st)):
             r = base[slice(lo, hi, st)]
             return CList(r) if isinstance(base, CList) else r
@@ -1010,6 +1016,8 @@ class Engine:
         raise Unsupported(f"slice of {type(base).__name__} (line {getattr(node, 'lineno', '?')})")
 
     def subscript(self, base, idx, node):
+        if isinstance(base, Rec) and base.cls == "restraint_list":
+            return self.restraint_index(base, idx, node)
         if isinstance(base, Opt):
             self.may_raise("TypeError", base.none, node, "subscript of None")
             base = base.val
@@ -1072,6 +1080,30 @@ class Engine:
             self.may_raise("IndexError", b_not(z3.And(i >= 0, i < n)), node, "string index")
             return z3.SubString(base, i, 1)
         raise Unsupported(f"subscript of {type(base).__name__} (line {getattr(node, 'lineno', '?')})")
+
+    def restraint_index(self, rec, idx, node):
+        """build-file restraint parameters are python lists of kind-dependent length:
+             sphere    [in_out, centre, r, 'sphere']
+             cylinder  [in_out, centre, r, half_height, 'cylinder']
+             rectangle [in_out, centre, a, b, c, 'rectangle']
+           modelled as one record (in_out, centre, a, b, c, kind); positions that do not exist for a kind carry an obligation"""
+        f = rec.fields
+        kind = S(f["kind"])
+        if idx == 0:
+            return f["in_out"]
+        if idx == 1:
+            return f["centre"]
+        if idx == 2:
+            return f["a"]
+        if idx == -1:
+            return f["kind"]
+        if idx == 3:
+            self.may_raise("TypeError", kind == z3.StringVal("sphere"), node, "restraint[3] of a sphere restraint is its kind string")
+            return f["b"]
+        if idx == 4:
+            self.may_raise("TypeError", kind != z3.StringVal("rectangle"), node, "restraint[4] only exists for rectangles")
+            return f["c"]
+        raise Unsupported(f"restraint index {idx!r}")
 
     def narr_index(self, arr, idx, node):
         if isinstance(idx, int):
@@ -1184,6 +1216,13 @@ class Engine:
             return self.call_closure(fn, args, kwargs, node)
         if isinstance(fn, ExcClass):
             return fn
+        if isinstance(fn, FuncChoice):
+            # dispatch through a table looked up with a symbolic key: one path per entry
+            for cond, f in fn.pairs[:-1]:
+                if self.choose(cond):
+                    return self.call(f, args, kwargs, node)
+            self.assume(fn.pairs[-1][0])
+            return self.call(fn.pairs[-1][1], args, kwargs, node)
         if isinstance(fn, PyType):
             impl = self.prelude.get("builtins." + fn.name)
             if impl:
@@ -1318,7 +1357,7 @@ class Engine:
             result = self.fresh(f"ret_{fr.qual.split('.')[-1]}", contract.result)
         for gname, gtype in contract.exposes.items():
             env[gname] = self.fresh(f"ghost_{gname}", gtype)
-        for name, ens in contract.ensures:
+        for name, ens in list(contract.ensures) + list(contract.defines):
             self.assume(self.spec_eval(ens, dict(env, result=result), old_env=pre_env, contract=contract))
         # write back modified arguments to the caller's objects
         for root in sorted({p.split(".")[0] for p in contract.modifies}):
